@@ -278,11 +278,11 @@ def h_symbound(op, bu, eu, unit, period, mode):
         import z3
         A = env.A
         N = SymFrac.K + 2
-        txt = 'out = ' + OPS[op] % ('[1%s,2%s]' % (bu, eu))
+        txt = 'out = ' + OPS[op] % ('[0%s,2%s]' % (bu, eu))
         kind = 'offline' if mode == 'offline' else 'online'
         s = dt.make_spec(kind, txt, vs, unit=unit, period=tuple(period) + (0.1,))
         B, E = env.real('B'), env.real('E')
-        env.assume(A.And(A.le(0, B), A.le(B, E), A.le(E * ue, SymFrac.K * P)))
+        env.assume(A.And(A.le(0, B), A.le(B * ub, E * ue), A.le(E * ue, SymFrac.K * P)))          # what parse() lets through: 0 <= begin <= end as durations
         if not env.symbolic:
             B, E = Fraction(B).limit_denominator(10 ** 12), Fraction(E).limit_denominator(10 ** 12)
         interp = s.offline_interpreter if mode == 'offline' else s.online_interpreter
@@ -347,7 +347,7 @@ def h_dense_symbound(op, bu, eu, unit, mode, n):
 
     def body(env):
         A = env.A
-        s = ct.make_spec('combined', 'out = ' + OPS[op] % ('[1%s,2%s]' % (bu, eu)), vs, unit=unit)
+        s = ct.make_spec('combined', 'out = ' + OPS[op] % ('[0%s,2%s]' % (bu, eu)), vs, unit=unit)
         B, E = env.real('B'), env.real('E')
         env.assume(A.And(A.le(0, B), A.le(B * (ub / U[du]), E * (ue / U[du]))))
         nodes = list(s.ast.specs)
@@ -505,7 +505,7 @@ def obligations(tier, rng):
                         out.append(ob('C08', 'spell', 'dt/%s/P=100ms/%s[%d,%d]/text-const %s %s=%s,%s unit=%s' % (mode, op, a, b, itext, ty, va, vb, unit), op=op, a=a, b=b, itext=itext,
                                       unit=unit, period=[100, 'ms'], consts=[], mode=mode, N=b + 3, decl=decl, wall=30))
     # the bounds as SOLVER VARIABLES: every non-negative rational pair B <= E up to 4 sampling periods, every unit combination
-    for op in (['once_t', 'eventually_t', 'since_t'] if quick else list(OPS)):
+    for op in (['once_t', 'eventually_t', 'since_t'] if quick else [o for o in OPS if o != 'unless_t']):       # unless[a,b] is sugar with two intervals: C15's business
         for bu, eu in ([('', ''), ('ms', 's'), ('', 'ms'), ('us', '')] if quick else [(b_, e_) for b_ in ('', 's', 'ms', 'us') for e_ in ('', 's', 'ms', 'us')]):
             for unit, period in ([(None, (1, 's')), (None, (500, 'ms')), ('ms', (2, 'ms'))] if quick else
                                  [(None, (1, 's')), (None, (500, 'ms')), ('ms', (2, 'ms')), ('us', (250, 'us')), ('ns', (3, 'ns')), (None, (1, 'ns'))]):
